@@ -1,4 +1,16 @@
 //! native replay of a solver counterexample: `replay <harness> <v0,v1,...>`
+use std::alloc::{GlobalAlloc, Layout, System};
+use std::sync::atomic::{AtomicUsize, Ordering};
+/// counts heap requests while a harness runs (C06: no operation allocates on its own)
+struct Counting;
+static ALLOCS: AtomicUsize = AtomicUsize::new(0);
+unsafe impl GlobalAlloc for Counting {
+    unsafe fn alloc(&self, l: Layout) -> *mut u8 { ALLOCS.fetch_add(1, Ordering::Relaxed); System.alloc(l) }
+    unsafe fn dealloc(&self, p: *mut u8, l: Layout) { System.dealloc(p, l) }
+    unsafe fn realloc(&self, p: *mut u8, l: Layout, n: usize) -> *mut u8 { ALLOCS.fetch_add(1, Ordering::Relaxed); System.realloc(p, l, n) }
+}
+#[global_allocator]
+static A: Counting = Counting;
 fn main() {
     let a: Vec<String> = std::env::args().collect();
     if a.len() < 2 { eprintln!("usage: replay <harness>|--list [vector]"); std::process::exit(2); }
@@ -9,8 +21,11 @@ fn main() {
     let Some(h) = found else { println!("REPLAY-ERROR unknown harness {}", a[1]); std::process::exit(2) };
     vh::vf::set_vector(v);
     std::panic::set_hook(Box::new(|_| {}));
+    let a0 = ALLOCS.load(Ordering::Relaxed);
     let r = std::panic::catch_unwind(h);
+    let allocs = ALLOCS.load(Ordering::Relaxed) - a0;
     let f = vh::vf::failed();
+    println!("ALLOCS {allocs}");
     if r.is_err() { println!("REPLAY-PANIC uncaught panic escaped the harness (consumed {})", vh::vf::consumed()); }
     if f.is_empty() { println!("REPLAY-OK no check failed (consumed {})", vh::vf::consumed()); }
     else { println!("REPRODUCED checks={:?}", f); }
